@@ -16,6 +16,10 @@ use crate::util::{err, hex, kv, panic_text, unhex};
 use fjall::compaction::filter::{
     CompactionFilter, CompactionFilterResult, Context, Factory, ItemAccessor, Verdict,
 };
+use fjall::config::{
+    BlockSizePolicy, BloomConstructionPolicy, CompressionPolicy, FilterPolicy, FilterPolicyEntry,
+    HashRatioPolicy, PartitioningPolicy, PinningPolicy, RestartIntervalPolicy,
+};
 use fjall::{
     AbstractTree, CompressionType, Database, Guard, Iter, Keyspace, KeyspaceCreateOptions,
     KvSeparationOptions, OptimisticTxDatabase, OptimisticTxKeyspace, OptimisticWriteTx,
@@ -570,6 +574,192 @@ fn parse_persist(s: &str) -> Result<PersistMode, Fail> {
 }
 
 // ---------------------------------------------------------------------------
+// Keyspace options (`ksx`) and their stored form (`cfg`)
+// ---------------------------------------------------------------------------
+
+/// `,`-separated list. The empty token is the empty list: the 1..255 bound is
+/// the library constructors' business (they panic, the op answers `panic …`).
+fn parse_list<T>(v: &str, item: impl Fn(&str) -> Result<T, Fail>) -> Result<Vec<T>, Fail> {
+    if v.is_empty() {
+        return Ok(vec![]);
+    }
+    v.split(',').map(item).collect()
+}
+
+fn parse_num<T: std::str::FromStr>(s: &str) -> Result<T, Fail> {
+    // `parse` would also take a leading `+`
+    if s.is_empty() || !s.bytes().all(|c| c.is_ascii_digit()) {
+        return Err(Fail::BadOp);
+    }
+    s.parse().map_err(|_| Fail::BadOp)
+}
+
+/// f32 written as 8 hex digits = its IEEE bit pattern (NaN payloads are exact).
+fn parse_f32_bits(s: &str) -> Result<f32, Fail> {
+    if s.len() != 8 || !s.bytes().all(|c| c.is_ascii_hexdigit()) {
+        return Err(Fail::BadOp);
+    }
+    u32::from_str_radix(s, 16)
+        .map(f32::from_bits)
+        .map_err(|_| Fail::BadOp)
+}
+
+fn parse_compression(s: &str) -> Result<CompressionType, Fail> {
+    match s {
+        "none" => Ok(CompressionType::None),
+        "lz4" => Ok(CompressionType::Lz4),
+        _ => Err(Fail::BadOp),
+    }
+}
+
+/// `n` | `b<f32 bits>` (bloom, bits per key) | `f<f32 bits>` (bloom, false positive rate)
+fn parse_filter_entry(s: &str) -> Result<FilterPolicyEntry, Fail> {
+    if s == "n" {
+        return Ok(FilterPolicyEntry::None);
+    }
+    let (kind, bits) = s.split_at_checked(1).ok_or(Fail::BadOp)?;
+    let x = parse_f32_bits(bits)?;
+    match kind {
+        "b" => Ok(FilterPolicyEntry::Bloom(BloomConstructionPolicy::BitsPerKey(x))),
+        "f" => Ok(FilterPolicyEntry::Bloom(
+            BloomConstructionPolicy::FalsePositiveRate(x),
+        )),
+        _ => Err(Fail::BadOp),
+    }
+}
+
+/// One parsed `key=value` of `ksx`.
+enum KsOpt {
+    Mt(u64),
+    ManualP(bool),
+    Eprh(bool),
+    Dbs(Vec<u32>),
+    Dbri(Vec<u8>),
+    Dbhr(Vec<f32>),
+    IbPin(Vec<bool>),
+    FbPin(Vec<bool>),
+    IbPart(Vec<bool>),
+    FbPart(Vec<bool>),
+    Dbc(Vec<CompressionType>),
+    Ibc(Vec<CompressionType>),
+    Fp(Vec<FilterPolicyEntry>),
+    /// l0 threshold, table target size, level ratios
+    Lev(u8, u64, Vec<f32>),
+    /// limit, ttl seconds
+    Fifo(u64, Option<u64>),
+    /// separation threshold, file target size, staleness threshold, age cutoff, compression
+    Blob(u32, u64, f32, f32, CompressionType),
+}
+
+impl KsOpt {
+    fn parse(k: &str, v: &str) -> Result<Self, Fail> {
+        Ok(match k {
+            "mt" => KsOpt::Mt(parse_num(v)?),
+            "manualp" => KsOpt::ManualP(parse_flag(v)?),
+            "eprh" => KsOpt::Eprh(parse_flag(v)?),
+            "dbs" => KsOpt::Dbs(parse_list(v, parse_num)?),
+            "dbri" => KsOpt::Dbri(parse_list(v, parse_num)?),
+            "dbhr" => KsOpt::Dbhr(parse_list(v, parse_f32_bits)?),
+            "ibpin" => KsOpt::IbPin(parse_list(v, parse_flag)?),
+            "fbpin" => KsOpt::FbPin(parse_list(v, parse_flag)?),
+            "ibpart" => KsOpt::IbPart(parse_list(v, parse_flag)?),
+            "fbpart" => KsOpt::FbPart(parse_list(v, parse_flag)?),
+            "dbc" => KsOpt::Dbc(parse_list(v, parse_compression)?),
+            "ibc" => KsOpt::Ibc(parse_list(v, parse_compression)?),
+            "fp" => KsOpt::Fp(parse_list(v, parse_filter_entry)?),
+            "lev" => {
+                let p: Vec<&str> = v.split(':').collect();
+                let [l0, target, ratios] = p.as_slice() else {
+                    return Err(Fail::BadOp);
+                };
+                KsOpt::Lev(
+                    parse_num(l0)?,
+                    parse_num(target)?,
+                    parse_list(ratios, parse_f32_bits)?,
+                )
+            }
+            "fifo" => {
+                let (limit, ttl) = v.split_once(':').ok_or(Fail::BadOp)?;
+                let ttl = if ttl == "-" {
+                    None
+                } else {
+                    Some(parse_num(ttl)?)
+                };
+                KsOpt::Fifo(parse_num(limit)?, ttl)
+            }
+            "blob" => {
+                let p: Vec<&str> = v.split(':').collect();
+                let [thr, target, stale, age, comp] = p.as_slice() else {
+                    return Err(Fail::BadOp);
+                };
+                KsOpt::Blob(
+                    parse_num(thr)?,
+                    parse_num(target)?,
+                    parse_f32_bits(stale)?,
+                    parse_f32_bits(age)?,
+                    parse_compression(comp)?,
+                )
+            }
+            _ => return Err(Fail::BadOp),
+        })
+    }
+
+    /// Calls the setter (the policy constructors may panic on the value).
+    fn apply(self, o: KeyspaceCreateOptions) -> KeyspaceCreateOptions {
+        match self {
+            KsOpt::Mt(b) => o.max_memtable_size(b),
+            KsOpt::ManualP(f) => o.manual_journal_persist(f),
+            KsOpt::Eprh(f) => o.expect_point_read_hits(f),
+            KsOpt::Dbs(v) => o.data_block_size_policy(BlockSizePolicy::new(v)),
+            KsOpt::Dbri(v) => o.data_block_restart_interval_policy(RestartIntervalPolicy::new(v)),
+            KsOpt::Dbhr(v) => o.data_block_hash_ratio_policy(HashRatioPolicy::new(v)),
+            KsOpt::IbPin(v) => o.index_block_pinning_policy(PinningPolicy::new(v)),
+            KsOpt::FbPin(v) => o.filter_block_pinning_policy(PinningPolicy::new(v)),
+            KsOpt::IbPart(v) => o.index_block_partitioning_policy(PartitioningPolicy::new(v)),
+            KsOpt::FbPart(v) => o.filter_block_partitioning_policy(PartitioningPolicy::new(v)),
+            KsOpt::Dbc(v) => o.data_block_compression_policy(CompressionPolicy::new(v)),
+            KsOpt::Ibc(v) => o.index_block_compression_policy(CompressionPolicy::new(v)),
+            KsOpt::Fp(v) => o.filter_policy(FilterPolicy::new(v)),
+            KsOpt::Lev(l0, target, ratios) => o.compaction_strategy(Arc::new(
+                fjall::compaction::Leveled::default()
+                    .with_l0_threshold(l0)
+                    .with_table_target_size(target)
+                    .with_level_ratio_policy(ratios),
+            )),
+            KsOpt::Fifo(limit, ttl) => {
+                o.compaction_strategy(Arc::new(fjall::compaction::Fifo::new(limit, ttl)))
+            }
+            KsOpt::Blob(thr, target, stale, age, comp) => o.with_kv_separation(Some(
+                KvSeparationOptions::default()
+                    .separation_threshold(thr)
+                    .file_target_size(target)
+                    .staleness_threshold(stale)
+                    .age_cutoff(age)
+                    .compression(comp),
+            )),
+        }
+    }
+}
+
+/// `cfg <h>`: the stored option form, rows sorted by name, then `kvsep=<0|1>`.
+fn cfg_dump(ks: &Keyspace) -> String {
+    // Row key = 'c' ++ 8-byte big-endian keyspace id ++ ASCII name.
+    const PREFIX: usize = 1 + std::mem::size_of::<u64>();
+    let mut rows: Vec<(String, String)> = ks
+        .verif_config_dump()
+        .into_iter()
+        .map(|(k, v)| {
+            let name = k.get(PREFIX..).unwrap_or_default();
+            (String::from_utf8_lossy(name).into_owned(), hex(&v))
+        })
+        .collect();
+    rows.sort();
+    let mut out: Vec<String> = rows.into_iter().map(|(n, v)| format!("{n}={v}")).collect();
+    out.push(format!("kvsep={}", u8::from(ks.is_kv_separated())));
+    out.join(",")
+}
+
+// ---------------------------------------------------------------------------
 // Generic read paths
 // ---------------------------------------------------------------------------
 
@@ -816,6 +1006,12 @@ impl Interp {
             }
             // --- keyspaces -------------------------------------------------
             "ks" => self.op_ks(a),
+            "ksx" => self.op_ksx(a),
+            "cfg" => {
+                exact(a, 1)?;
+                let ks = self.state().ks(a[0])?;
+                Ok(cfg_dump(ks.inner()))
+            }
             "delks" => {
                 exact(a, 1)?;
                 let (db, ks) = self.db_ks(a[0])?;
@@ -1191,6 +1387,11 @@ impl Interp {
             o
         };
 
+        self.bind_ks(h, name, make)
+    }
+
+    /// Binds handle `h` to `db.keyspace(name, make)` (shared by `ks` / `ksx`).
+    fn bind_ks(&self, h: &str, name: &str, make: impl FnOnce() -> KeyspaceCreateOptions) -> R {
         let db = self.state().db()?;
         // Keyspace creation goes through the tx database's own `keyspace()`
         // so that the tx keyspace type is available.
@@ -1202,6 +1403,33 @@ impl Interp {
         let old = self.state().ks.insert(h.to_string(), ks);
         drop(old);
         ok()
+    }
+
+    /// `ksx <h> <name> <opt>*`: like `ks`, but with the full option record.
+    fn op_ksx(&self, a: &[&str]) -> R {
+        let h = arg(a, 0)?;
+        let name = arg(a, 1)?;
+
+        // Syntax first: a malformed token is `badop` whatever else is on the line.
+        let mut opts: Vec<KsOpt> = vec![];
+        for t in &a[2..] {
+            let (k, v) = t.split_once('=').ok_or(Fail::BadOp)?;
+            opts.push(KsOpt::parse(k, v)?);
+        }
+
+        // The option record is built *before* `keyspace()` is called and the
+        // closure only hands it over: `Database::keyspace` runs the closure
+        // while it holds the keyspaces write lock, so a constructor panic
+        // inside the closure (empty list, > 255 entries) would poison that
+        // lock and turn every later operation into a `lock is poisoned` panic.
+        // Built here the panic is reported for this op only. Keys are applied
+        // in the order written (`lev` and `fifo` share one setter: last wins).
+        let mut o = KeyspaceCreateOptions::default();
+        for opt in opts {
+            o = opt.apply(o);
+        }
+
+        self.bind_ks(h, name, move || o)
     }
 
     fn op_dump(&self, db: &Database) -> R {
